@@ -43,6 +43,7 @@ func (c *FnCtx) doCallVals(p *Path, call *ssa.CallCommon, fnv Val, args []Val, p
 	if call.IsInvoke() {
 		recv := fnv
 		mname := call.Method.Name()
+		c.runGhostAt(p, "before:"+mname)
 		c.checkNonNilIface(p, recv, "method call "+mname)
 		// statically known dynamic type → concrete method
 		if recv.Dyn != nil {
